@@ -42,11 +42,12 @@ def tasks(tier, seed):
                                caller=cname, cost=sum(c[1] if c[0] == 'list' else 1 for c in shape)))
     ts.append(dict(kind='special', name='concrete/special-and-unrepresentable-arguments', cost=5))
     ts.append(dict(kind='entry', name='concrete/entry-conversion', cost=1))
+    ts.append(dict(kind='sumcheck', name='concrete/summaries-vs-real-operations', cost=3))
     return ts
 
 
 def required_witnesses(tier):
-    return ['returns', 'reference-stuck-and-real-raises', 'with-block', 'callee-call', 'concrete-special', 'concrete-entry']
+    return ['returns', 'reference-stuck-and-real-raises', 'with-block', 'callee-call', 'concrete-special', 'concrete-entry', 'summaries-validated']
 
 
 def num_helpers():
@@ -169,6 +170,10 @@ def run_task(task):
         return run_special(task)
     if task['kind'] == 'entry':
         return run_entry(task)
+    if task['kind'] == 'sumcheck':
+        n, bad = tv.summary_selftest()
+        cex = [{'case': {'task': {'kind': 'sumcheck'}, 'inputs': {'row': b}, 'info': str(b)[:200]}} for b in bad[:10]]
+        return dict(paths=0, requires=0, cex=cex, samples=[{'task': task['name'], 'concrete_cases': n, 'concrete': True}], witness={'summaries-validated': n}, extra={'diff_runs': n, 'summary_differential_cases': n})
     import z3
     from pysym.core import explore
     from pysym import summaries, shims
